@@ -25,15 +25,15 @@ Import ListNotations.
 Section Proofs.
 Variable str : Type.
 Variable eqb : str -> str -> bool.
-Variables INVALID EOFSYM : str.
+Variables INVALID EOFSYM EMPTY : str.
 Hypothesis eqb_eq : forall a b, eqb a b = true <-> a = b.
 
 Notation mem := (mem str eqb).
 Notation add := (add str eqb).
 Notation add_all := (add_all str eqb).
 Notation typemap := (typemap str eqb INVALID EOFSYM).
-Notation is_terminal := (is_terminal str eqb).
-Notation terminals := (terminals str eqb INVALID EOFSYM).
+Notation is_terminal := (is_terminal str eqb EMPTY).
+Notation terminals := (terminals str eqb INVALID EOFSYM EMPTY).
 Notation type_of := (type_of str eqb).
 Notation index_from := (index_from str eqb).
 Notation id_of := (id_of str).
@@ -149,9 +149,10 @@ Proof.
 Qed.
 
 Lemma is_terminal_spec : forall prods s,
-  is_terminal prods s = true <-> ~ In s (map fst prods).
+  is_terminal prods s = true <-> ~ In s (map fst prods) /\ s <> EMPTY.
 Proof.
-  intros. unfold TokMap.is_terminal. rewrite negb_true_iff. apply mem_false.
+  intros. unfold TokMap.is_terminal. rewrite andb_true_iff, !negb_true_iff, eqb_neq.
+  split; intros [H1 H2]; (split; [|exact H2]); apply mem_false; exact H1.
 Qed.
 
 Theorem terminals_NoDup : forall prods lex, NoDup (terminals prods lex).
@@ -169,7 +170,7 @@ Qed.
     of some production, or a lexical token id *)
 Theorem terminals_In : forall prods lex s,
   In s (terminals prods lex) <->
-  ~ In s (map fst prods)
+  ~ In s (map fst prods) /\ s <> EMPTY
   /\ (s = INVALID \/ s = EOFSYM \/ In s (flat_map snd prods) \/ In s lex).
 Proof.
   intros. unfold TokMap.terminals.
@@ -182,34 +183,35 @@ Theorem terminals_count : forall prods lex s,
 Proof. intros prods lex s. apply NoDup_count_occ'. apply terminals_NoDup. Qed.
 
 Corollary body_terminal_once : forall prods lex s,
-  In s (flat_map snd prods) -> ~ In s (map fst prods) ->
+  In s (flat_map snd prods) -> ~ In s (map fst prods) -> s <> EMPTY ->
   count_occ str_eq_dec (terminals prods lex) s = 1.
 Proof. intros. apply terminals_count. apply terminals_In. tauto. Qed.
 
 Corollary lex_id_once : forall prods lex s,
-  In s lex -> ~ In s (map fst prods) ->
+  In s lex -> ~ In s (map fst prods) -> s <> EMPTY ->
   count_occ str_eq_dec (terminals prods lex) s = 1.
 Proof. intros. apply terminals_count. apply terminals_In. tauto. Qed.
 
 (** the list starts with INVALID, ␚ when neither is a production name ... *)
 Theorem terminals_head : forall prods lex,
-  INVALID <> EOFSYM ->
+  INVALID <> EOFSYM -> INVALID <> EMPTY -> EOFSYM <> EMPTY ->
   ~ In INVALID (map fst prods) -> ~ In EOFSYM (map fst prods) ->
   exists t, terminals prods lex = INVALID :: EOFSYM :: t.
 Proof.
-  intros prods lex Hne H1 H2. unfold TokMap.terminals.
+  intros prods lex Hne He1 He2 H1 H2. unfold TokMap.terminals.
   destruct (typemap_head prods lex Hne) as [t Ht]. rewrite Ht. simpl.
-  apply is_terminal_spec in H1. apply is_terminal_spec in H2. rewrite H1, H2.
-  eexists. reflexivity.
+  assert (T1 : is_terminal prods INVALID = true) by (apply is_terminal_spec; auto).
+  assert (T2 : is_terminal prods EOFSYM = true) by (apply is_terminal_spec; auto).
+  rewrite T1, T2. eexists. reflexivity.
 Qed.
 
 (** ... and only then *)
 Theorem terminals_head_iff : forall prods lex,
-  INVALID <> EOFSYM ->
+  INVALID <> EOFSYM -> INVALID <> EMPTY -> EOFSYM <> EMPTY ->
   ((exists t, terminals prods lex = INVALID :: EOFSYM :: t) <->
    (~ In INVALID (map fst prods) /\ ~ In EOFSYM (map fst prods))).
 Proof.
-  intros prods lex Hne. split.
+  intros prods lex Hne He1 He2. split.
   - intros [t Ht].
     assert (H1 : In INVALID (terminals prods lex)) by (rewrite Ht; left; reflexivity).
     assert (H2 : In EOFSYM (terminals prods lex)) by (rewrite Ht; right; left; reflexivity).
@@ -301,13 +303,13 @@ Qed.
 
 (** the generated constants INVALID = 0 and EOF = 1 are right under the side condition *)
 Theorem type_of_INVALID_EOF : forall prods lex,
-  INVALID <> EOFSYM ->
+  INVALID <> EOFSYM -> INVALID <> EMPTY -> EOFSYM <> EMPTY ->
   ~ In INVALID (map fst prods) -> ~ In EOFSYM (map fst prods) ->
   type_of (terminals prods lex) INVALID = 0 /\ type_of (terminals prods lex) EOFSYM = 1
   /\ id_of (terminals prods lex) 0 = Some INVALID /\ id_of (terminals prods lex) 1 = Some EOFSYM.
 Proof.
-  intros prods lex Hne H1 H2.
-  destruct (terminals_head prods lex Hne H1 H2) as [t Ht].
+  intros prods lex Hne He1 He2 H1 H2.
+  destruct (terminals_head prods lex Hne He1 He2 H1 H2) as [t Ht].
   pose proof (terminals_NoDup prods lex) as ND. rewrite Ht in *.
   split; [|split; [|split]]; try reflexivity.
   - apply type_of_id_of; [exact ND|reflexivity].
